@@ -22,6 +22,7 @@ EXPLANATION = (
     "injective and key the public enum. R4 addressing: to-address folds to 0x90 exactly when message_id == 0x1F and 0x80 otherwise, from 0xB0, message "
     "ids equal the vendor's. R5 set-point arithmetic: AT5 raw = 10*t - 100, AT4 integer set-point in bits 5..0; limits follow the mode (C10.R5 re-used). "
     "R6 check value: C06 (same _write). Float truncation off the 0.1 grid is not decided."
+    " R7 units are created with the number their own ability / names record carries (C09.R5 re-used); R8 the quick-timer duration (no vendor text; divmod arithmetic outside the bit domain) is evaluated by the checker's interpreter on all 1440 whole-minute durations (exact hours/minutes, decodes back), on wrap-around values and on 42 sub-minute witnesses (never later than requested, same in both generations); R9 the frame is written in one piece (C01.R4 re-used)."
 )
 ASSUMPTIONS = ["vendor tables transcribed in sa/spec/tables.py (DESIGN Appendix A) are the oracle", "values outside the vendor's valid ranges are outside the property's quantifier"]
 FLOORS = {"C04.R1": 40, "C04.R2": 30, "C04.R3": 30, "C04.R4": 14, "C04.R5": 6, "C04.R6": 1, "C04.R7": 1, "C04.R8": 7, "C04.R9": 1}
